@@ -128,6 +128,16 @@ var c17shadow = []struct{ src, want string }{
 	{`[{{ isset(pn.NilFn) }}{{ isset(pn.FnMap["nilfn"]) }}{{ isset(pn.FnMap.nilfn) }}{{ isset(pn.FnMap.absent) }}{{ isset(pn.AnyNilFn) }}{{ isset(nilfnvar) }}{{ isset(pn.Fn, pn.NilFn) }}{{ isset(pn.NilCh) }}|{{ isset(pn.Fn) }}{{ isset(pn.FnMap["fn"]) }}{{ isset(pn.AnyFn) }}{{ isset(fnvar) }}{{ isset(pn.Ch) }}{{ isset(pn.Fn, pn.Ch) }}]`, "[falsefalsefalsefalsefalsefalsefalsefalse|truetruetruetruetruetrue]"},
 	// keys and indexes that a collection or a function hands over boxed in interface{} count as the values they hold
 	{`[{{range _, k := ikeys}}{{isset(im[k])}}{{end}}|{{range _, i := iidx}}{{isset(ilist[i])}}{{end}}|{{k := ipick()}}{{isset(im.a, im[k], k)}}|{{range _, k := ikeys}}{{v, ok := im[k]}}{{ok}}{{end}}|{{range ikeys}}{{isset(im[.])}}{{end}}{{isset(im[ipick()])}}]`, "[truefalse|truefalse|true|truefalse|truefalsetrue]"},
+	// a name promoted from two embedded structs at the same depth is ambiguous (Go's selector rules): it is no field at all
+	{`[{{ isset(amb.ID) }}{{ isset(amb["ID"]) }}{{ isset(amb.Title, amb.ID) }}{{ amb.Title | isset(amb.ID) }}|{{ isset(amb.OnlyA) }}{{ isset(amb.Title) }}{{ isset(amb.C17AmbA.ID) }}{{ isset(amb.C17AmbB.ID, amb.OnlyA) }}]`, "[falsefalsefalsefalse|truetruetruetrue]"},
+}
+
+type C17AmbA struct{ ID, OnlyA string }
+type C17AmbB struct{ ID string }
+type C17Amb struct {
+	C17AmbA
+	C17AmbB
+	Title string
 }
 
 func c17run(c *fw.Ctx, idx int) {
@@ -141,6 +151,7 @@ func c17run(c *fw.Ctx, idx int) {
 		dv := c06vars(root)
 		dv.Set("pn", c17pointers())
 		dv.Set("nilfnvar", (func() string)(nil)).Set("fnvar", func() string { return "called" })
+		dv.Set("amb", C17Amb{C17AmbA{"ida", "only"}, C17AmbB{"idb"}, "title"})
 		dv.Set("ikeys", []interface{}{"a", "zz"}).Set("im", map[string]int{"a": 1}).Set("iidx", []interface{}{0, 5}).Set("ilist", []string{"x"}).Set("ipick", func() interface{} { return "a" })
 		out := jx.Run(map[string]string{"/t.jet": d.src}, "/t.jet", dv, root, jx.NoEscape)
 		c.Count("directed_shadowing_cases", 1)
@@ -228,6 +239,10 @@ func c17run(c *fw.Ctx, idx int) {
 	case piped:
 		src = "{{ " + srcs[0] + " | isset }}"
 		kind = "piped"
+	case n > 1 && r.Intn(5) == 0 && !strings.Contains(hows[0], "=error"):
+		// the first argument is piped in without a slot: it is the first argument, the written ones follow, all are checked
+		src = "{{ " + srcs[0] + " | isset(" + strings.Join(srcs[1:], ", ") + ") }}"
+		kind = fmt.Sprintf("piped-implicit-first-of-%d", n)
 	case r.Intn(4) == 0 && !strings.Contains(hows[0], "=error"):
 		// the first argument is piped in and placed with the '_' slot, anywhere in the list
 		rest := append([]string{}, srcs[1:]...)
